@@ -1,2 +1,2 @@
 """Property lemmas: ghost functions that may only CALL functions under contract."""
-from . import c01, c05, c09_c10, c11, c12_c13, c18  # noqa: F401
+from . import c01, c02_c08_c16_c17, c05, c09_c10, c11, c12_c13, c18, c19  # noqa: F401
